@@ -221,6 +221,7 @@ def finish(a, prop, results, problems, t0, nshards):
             "known_findings_listed_not_observed": sorted(set(known) - set(known_seen)),
             "new_violation_keys": new_keys,
             "inconclusive_reasons": inconclusive,
+            "harness_error_samples": harness_errors[:3],
             "shards": nshards, "shards_completed": len(results),
             "distinct_not_counted_over_cap": distinct_overflow,
             "extra": {k: v for k, v in meta.items() if k not in ("rule", "assumptions", "exhaustive_core")},
